@@ -60,6 +60,12 @@ def check_case(case, stats=None, K=oracle.K_QUICK):
                 if case.get("locals"):
                     stats.classes["rejected-with-locals=%d" % case["locals"]] += 1
         return
+    if case.get("inlined_only") and any(re.search(r"^\s*(j|jal)\s+%s\s*$" % f, res["code"], re.M) or re.search(r"^%s:" % f, res["code"], re.M)
+                                        for f in case["inlined_only"]):
+        # the function came out of line after all: its tail call is the shape of open finding F-D11 (C06)
+        if stats is not None:
+            stats.excluded["tail-call-function-not-inlined(F-D11)"] += 1
+        return
     bad = token_scan(res["code"])
     if bad:
         raise Violation("C04:register-token-outside-r0-r15", {"opts": opts, "line": bad[0], "token": bad[1], "code": res["code"]})
@@ -234,8 +240,49 @@ def recursive(draw):
 
 
 @st.composite
+def tail_mid(draw):
+    """tail_call_optimization on: a function (called once, hence inlined - the out-of-line case is open finding
+    F-D11 and is excluded at check time) keeps locals alive across a call in the middle of its body and ends in
+    another call of the same or of a second callee; the callees are called from two sites and stay out of line"""
+    ncal = draw(st.integers(1, 2))
+    L = [programs.HDR.rstrip("\n")]
+    outs = ["db.Setting", "d1.Setting", "d2.Setting"]
+    for j in range(ncal):
+        L.append(f"def rep{j}(v):")
+        nt = draw(st.integers(1, 3))
+        L.append(f"    s0 = v * 2 + {draw(st.sampled_from(['1', 'd3.Setting', 'd0.On']))}")
+        for t in range(1, nt):
+            L.append(f"    s{t} = s{t - 1} - v * {t + 2}")
+        L.append(f"    s{nt - 1} += 1")
+        L.append(f"    {outs[j]} = " + " + ".join(f"s{t}" for t in range(nt)))
+    npar = draw(st.integers(1, 2))
+    ps = ["n", "m"][:npar]
+    L.append(f"def run({', '.join(ps)}):")
+    nl = draw(st.integers(1, 4))
+    for t in range(nl):
+        L.append(f"    a{t} = {ps[t % npar]} * {t + 3} + {draw(st.sampled_from(['1', 'd4.Setting', '0.5']))}")
+    L.append(f"    rep0({draw(st.sampled_from(ps + ['a0 + 1']))})")
+    for t in range(nl):
+        L.append(f"    a{t} += {7 + t}")
+    if draw(st.booleans()):
+        L.append(f"    d5.Setting = " + " - ".join(f"a{t}" for t in range(nl)))
+    L.append(f"    rep{ncal - 1}({' + '.join(f'a{t}' for t in range(nl))})")
+    L.append("while True:")
+    L.append(f"    run({', '.join(draw(st.sampled_from(['d0.Setting', 'd3.Mode', '2'])) for _ in ps)})")
+    if ncal == 2 or draw(st.booleans()):
+        L.append(f"    rep{ncal - 1}(d4.Setting)")
+    L.append("    yield_()")
+    return {"src": {"": "\n".join(L) + "\n"}, "env_seeds": [draw(st.integers(0, 2**31 - 1)) for _ in range(2)], "pool": compare.DEFAULT_POOL,
+            "family": "tail-call-with-mid-call", "opts": draw(st.sampled_from([{"tail_call_optimization": True},
+                                                                         {"tail_call_optimization": True, "use_push_pop_functions": True}])),
+            "inlined_only": ["run"]}
+
+
+@st.composite
 def cases(draw):
-    k = draw(st.integers(0, 11))
+    k = draw(st.integers(0, 12))
+    if k == 12:
+        return draw(tail_mid())
     if k == 11 and draw(st.integers(0, 3)) == 0:
         c = draw(recursive())
         c["opts"] = VECS[draw(st.integers(0, len(VECS) - 1))]
